@@ -150,7 +150,7 @@ def disarm():
 
 
 # ---- data patterns -----------------------------------------------------------------------
-PATTERNS = ('rand', 'zero', 'ones', 'walk', 'x80', 'x7f', 'asc')
+PATTERNS = ('rand', 'zero', 'ones', 'walk', 'x80', 'x7f', 'asc', 'xwords')
 
 def pattern(rng, n, kind='rand'):
     """n bytes of the named pattern (deterministic given rng state)"""
@@ -173,6 +173,10 @@ def pattern(rng, n, kind='rand'):
         return b'\x7f' * n
     if kind == 'asc':
         return bytes((i * 7 + 1) & 0xff for i in range(n))
+    if kind == 'xwords':
+        # 32-bit words drawn from values where carries, rotations and complements coincide
+        ws = [b'\xff\xff\xff\xff', b'\0\0\0\0', b'\x0f\x0f\x0f\x0f', b'\xf0\xf0\xf0\xf0', b'\x80\0\0\0', b'\0\0\0\x01', b'\x7f\xff\xff\xff', b'\xff\xff\xff\xfe']
+        return b''.join(rng.choice(ws) for _ in range(n // 4 + 1))[:n]
     raise ValueError(kind)
 
 def rng_for(seed, pid, *extra):
@@ -243,3 +247,35 @@ def mutable_arg(ctx, monitor, f, m, want, must_accept=True, **det):
     ctx.eq(monitor, nb(r2), want, arg='the same bytearray passed again', **det)
     ctx.eq(monitor, bytes(buf), bytes(m), arg='caller buffer left unchanged', **det)
     return True
+
+
+# ---- the process has a past ------------------------------------------------------------------------------
+def process_past():
+    """Executed once at the start of every odd-numbered worker (and of a replay of one of its cases): the interpreter has already
+    used OTHER parts of crysp, unusual configurations first -- SHA-512/t before SHA-256 and BLAKE, SHA-0, small Keccak widths,
+    keyed and salted objects, the largest Threefish, TDEA, MD6 in sequential mode.  State that one module leaves behind for
+    another (a table cached under too small a key, a shared template) then meets the property's own workload in the other
+    order than in the even-numbered workers, which start cold.  Nothing is judged here."""
+    def go(f):
+        try:
+            f()
+        except CaseTimeout:
+            raise
+        except Exception:
+            pass
+    import crysp.sha as S, crysp.md as MD, crysp.blake as BK, crysp.keccak as KK, crysp.skein as SK, crysp.hmac as HM
+    import crysp.aes as A, crysp.des as D, crysp.serpent as SE, crysp.threefish as TF, crysp.salsa20 as SA, crysp.chacha as CH, crysp.rc4 as R4
+    import crysp.mode as MO, crysp.padding as PD, crysp.crc as CR, crysp.tlsh as TL, crysp.nilsimsa as NI
+    from crysp.bits import Bits
+    M = bytes(range(200))
+    go(lambda: S.SHA2(512, 256)(M)); go(lambda: S.SHA2(512, 224)(M)); go(lambda: S.SHA2(384)(M)); go(lambda: S.SHA1(0)(M)); go(lambda: S.SHA2(224)(M))
+    go(lambda: S.SHA3(512)(M)); go(lambda: S.SHAKE256(M, 72)); go(lambda: KK.Keccak(b=200, r=40, len=160)(M))
+    go(lambda: MD.MD6(160, b'key', 0)(M)); go(lambda: MD.MD4()(M))
+    go(lambda: BK.Blake(384)(M, 12345)); go(lambda: BK.Blake2(256)(M, salt=b'saltsalt', outlen=7)); go(lambda: BK.Blake(224)(M))
+    go(lambda: SK.Skein(1024, 264, key=b'k', nonce=b'n')(M)); go(lambda: SK.Skein(256, 256, Yl=1, Yf=1, Ym=2)(M))
+    go(lambda: HM.HMAC(MD.MD5(), M)(b'x'))
+    go(lambda: TF.Threefish(bytes(128), bytes(16)).enc(bytes(128))); go(lambda: D.TDEA(b'12345678', b'abcdefgh', b'ABCDEFGH').dec(bytes(8)))
+    go(lambda: A.AES(bytes(range(24))).dec(bytes(16))); go(lambda: SE.Serpent(b'k' * 5).enc(bytes(16)))
+    go(lambda: SA.Salsa20(Bits(bytes(32), bitorder=1), 8).enc(Bits(bytes(8), bitorder=1), M)); go(lambda: CH.Chacha(Bits(bytes(16), bitorder=1), 4).enc(Bits(bytes(8), bitorder=1), M))
+    go(lambda: R4.RC4(b'k').enc(M)); go(lambda: MO.CTS_CBC(D.DES(b'12345678'), bytes(8)).enc(M)); go(lambda: MO.CBC(A.AES(bytes(16)), bytes(16), PD.X923).enc(M))
+    go(lambda: CR.crc(M, CR.crc_table(Bits(0x8408, 16)), 0xffff, 0)); go(lambda: TL.TLSH(48, 4, 3)(M + M + M, True)); go(lambda: NI.Nilsimsa(11)(M))
